@@ -7,10 +7,38 @@ from astu import C, ctxt, gt_pair, eq_const, reach, reach_txt, ctext, strip, str
 from vlib.core import ob
 
 
+_COIN_HELPERS = set()
+
+
+def set_coin_helpers(fns):
+    """parameterless helpers whose whole body is one unconditional draw of the fair bit that is returned (directly or through one
+    named local): calling such a helper is a coin draw"""
+    from astu import single_assignment_locals
+    _COIN_HELPERS.clear()
+    for p, f in fns.items():
+        if f.get("params") or f.get("body") is None:
+            continue
+        st = stmts_of(f["body"])
+        if not st or st[-1].get("k") != "Return" or st[-1].get("e") is None or any(x.get("k") not in ("Decl", "Return") for x in st):
+            continue
+        n = [0]
+        walk(f["body"], lambda x: n.__setitem__(0, n[0] + 1) if is_coin_call(x) and x.get("k") == "OpCall" else None)
+        if n[0] != 1:
+            continue
+        r = strip_all(st[-1]["e"])
+        sa = single_assignment_locals(f)
+        if r.get("k") == "Ref" and r.get("d") in sa:
+            r = strip_all(sa[r["d"]])
+        if is_coin_call(r):
+            _COIN_HELPERS.add(p)
+
+
 def is_coin_call(e):
     e = strip_all(e)
     if not isinstance(e, dict):
         return False
+    if e.get("k") == "Call" and not e.get("args") and e.get("cpat") in _COIN_HELPERS:
+        return True
     if e.get("k") == "OpCall" and e.get("op") == "()" and e.get("args"):
         a0 = strip_all(e["args"][0])
         return a0.get("k") == "Ref" and (a0.get("q") or "").endswith("random_utils::random_bit")
@@ -19,6 +47,7 @@ def is_coin_call(e):
 
 def coin_sources(facts):
     fns = functions_by(facts, ["kll", "req", "quantiles"])
+    set_coin_helpers(fns)
     out = []
     # (i) local offsets in the KLL / classic halving primitives
     for pat, fn in sorted(fns.items()):
@@ -53,7 +82,7 @@ def coin_sources(facts):
                 out.append(ob("coin.source", key, decls[cur["d"]]["loc"], "violated", "survivor start `%s = %s` does not depend on random_utils::random_bit() (%s): the surviving half is chosen deterministically, the rank estimator is biased" % (cur["n"], txt(cinit), "constant" if consts_only else "derived from data/counters"), fn["qname"]))
             # exactly one draw, unconditional
             draws = []
-            walkp(fn["body"], lambda n, ps: draws.append((n, ps)) if is_coin_call(n) and n.get("k") == "OpCall" else None)
+            walkp(fn["body"], lambda n, ps: draws.append((n, ps)) if is_coin_call(n) and n.get("k") in ("OpCall", "Call") else None)
             key2 = base + ":one-draw"
             cond = [p for n, ps in draws for p in ps if p.get("k") in ("If", "For", "While", "Do", "Cond", "RangeFor")]
             if len(draws) == 1 and not cond:
